@@ -183,6 +183,27 @@ pub fn run(args: &Args, prop: &str) {
         families.push(json!({"family": "backend refuses the head-set commit of a sync transaction, then an action", "universes": dags.len(), "executions": ex}));
         rep.require_nonzero("faults_fired");
     }
+    if prop == "C04" {
+        // Multi-head states reached by sync transactions in which some commands were refused at
+        // origin (rule failure after a write, unmet requirement, wrong parent max cut), with the
+        // refused command arriving at every position (parent a head / an interior command; first
+        // command of a fresh perspective or not): whatever head set the transaction commits, queries
+        // and the action that collapses it must agree.
+        let nmax = if args.tier == Tier::Thorough { 6 } else { 5 };
+        let dags: Vec<Dag> = crate::props::reject::universes(4, nmax, 1, args.tier == Tier::Thorough);
+        let cuts: &[Cut] = if args.tier == Tier::Thorough { &[Cut::None, Cut::Batch, Cut::Flush, Cut::Commit] } else { &[Cut::None, Cut::Batch] };
+        let filter: crate::props::simrun::Filter = |c, _| matches!(c, "action-view" | "lazy-merge-view" | "action-parent" | "hello-vs-collapse" | "hello");
+        let ex = run_all(&mut rep, "rejecting", &dags, oracles, false, filter, |d, f| {
+            crate::props::reject::histories(d, cuts, &mut |base: &[Ev]| {
+                let mut evs = base.to_vec();
+                evs.push(Ev::Action(pub1.clone()));
+                evs.push(Ev::Action(follow.clone()));
+                f(&evs);
+            });
+        });
+        families.push(json!({"family": "states reached by sync with one command refused at origin (every position), then an action", "universes": dags.len(), "executions": ex}));
+        rep.require_nonzero("rejected_adds");
+    }
     rep.require_nonzero("ok_actions");
     rep.require_nonzero("collapses");
     rep.require_nonzero("action_views_checked");
